@@ -1967,4 +1967,479 @@ theorem asm_stop {w c n i' : Nat} (hw : 1 ≤ w) (h4 : i' = n ∨ c * w ≤ i' *
   · exact Or.inl h
   · exact Or.inr (Nat.le_antisymm hic (Nat.le_of_mul_le_mul_right h (by omega)))
 
+theorem ConvOkP.of_dec {t : PTy} {z : Int} (c : Bool) (q : Nat)
+    (hc : c = true ↔ repOf t.signed (B t.bits) z)
+    (hq : c = true → q < B t.bits ∧ PInt.val t q = z) :
+    ConvOkP t (.ok (if c then some q else none)) z := by
+  cases c
+  · exact Or.inr ⟨fun h => by simpa using hc.mpr h, rfl⟩
+  · exact Or.inl ⟨hc.mp rfl, q, rfl, hq rfl⟩
+
+theorem ConvOkP.none {t : PTy} {z : Int} (h : ¬ repOf t.signed (B t.bits) z) :
+    ConvOkP t (.ok none) z := Or.inr ⟨h, rfl⟩
+
+theorem ConvOkP.some {t : PTy} {z : Int} {q : Nat} (h : repOf t.signed (B t.bits) z)
+    (hq : q < B t.bits) (hv : PInt.val t q = z) : ConvOkP t (.ok (some q)) z :=
+  Or.inl ⟨h, q, rfl, hq, hv⟩
+
+theorem val_unsigned {t : PTy} (h : t.signed = false) (q : Nat) : PInt.val t q = q := by
+  simp [PInt.val, h]
+theorem val_signed {t : PTy} (h : t.signed = true) (q : Nat) :
+    PInt.val t q = toInt (B t.bits) q := by simp [PInt.val, h]
+
+/-- the tail check `while i < N { if digits[i] != pad … }` in closed form -/
+theorem restAll_zero {w n : Nat} {x : List Nat} (hx : WF w n x) {i : Nat} (hi : i ≤ n) :
+    restAll x 0 (x.length - i) i = .ok (decide (U w (x.drop i) = 0)) := by
+  rw [restAll_spec x 0 _ i (by rw [hx.1]; omega), hx.1]
+  exact congrArg Outcome.ok (decide_eq_decide.2 (split_at hx hi).2.2.2.2.1)
+
+theorem restAll_max {w n : Nat} {x : List Nat} (hx : WF w n x) {i : Nat} (hi : i ≤ n) :
+    restAll x (B w - 1) (x.length - i) i = .ok (decide (U w (x.drop i) = M w (n - i) - 1)) := by
+  rw [restAll_spec x _ _ i (by rw [hx.1]; omega), hx.1]
+  exact congrArg Outcome.ok (decide_eq_decide.2 (split_at hx hi).2.2.2.2.2)
+
+theorem B_lt_B {a b : Nat} (h : a < b) : 2 * B a ≤ B b := by
+  have : B (a + 1) ≤ B b := Nat.pow_le_pow_right (by decide) h
+  unfold B at *; rw [Nat.pow_succ] at this; omega
+
+/-- C13: `TryFrom<BUint<N>> for $int` (`try_from_buint!`).  The digit is wider than the target,
+    or the target width is a multiple of the digit width. -/
+theorem UI.tryToPrim_spec {w n : Nat} {x : List Nat} (t : PTy) (hw : 1 ≤ w) (hn : 1 ≤ n)
+    (hk : 1 ≤ t.bits) (hdiv : t.bits < w ∨ ∃ c, t.bits = c * w) (hx : WF w n x) :
+    ConvOkP t (UI.tryToPrim w x t) (U w x) := by
+  unfold UI.tryToPrim
+  dsimp only
+  have hBe : B t.bits = 2 * (B t.bits / 2) := B_even hk
+  by_cases hwk : w > t.bits
+  · -- digit wider than the primitive
+    rw [if_pos hwk]
+    have hBB := B_lt_B hwk
+    obtain ⟨h1, h2, h3, h4, _, _⟩ := split_at hx (show 1 ≤ n by omega)
+    have hz := restAll_zero hx (show 1 ≤ n by omega)
+    have hlen : 0 < x.length := by rw [hx.1]; omega
+    have ht : U w (x.take 1) = x.getD 0 0 := by
+      rw [take_succ_getD x hlen]; simp
+    rw [idx_getD hlen, Outcome.bind_ok, hz]
+    rw [ht] at h1 h2
+    rw [Nat.pow_one] at h1 h2
+    generalize x.getD 0 0 = d0 at *
+    generalize U w (x.drop 1) = D at *
+    have hD : D ≠ 0 → B w ≤ B w * D := fun h => Nat.le_mul_of_pos_right _ (by omega)
+    have hsm : PInt.cast w false t.bits d0 = d0 % B t.bits := cast_trunc _ _ (by omega)
+    have hmod := Nat.mod_lt d0 (B_pos t.bits)
+    have hmd := Nat.mod_add_div d0 (B t.bits)
+    rw [hsm]
+    generalize hsmall : d0 % B t.bits = small at *
+    have hsd : d0 < B t.bits → small = d0 := fun h => by rw [← hsmall]; exact Nat.mod_eq_of_lt h
+    have hds : B t.bits ≤ d0 → small ≠ d0 := fun h => by omega
+    cases hs : t.signed
+    · -- unsigned target
+      have hneg : PInt.isNeg t small = false := by simp [PInt.isNeg, hs]
+      have htr : PInt.cast t.bits false w small = small := cast_unsigned_id hmod (by omega)
+      rw [htr, hneg]
+      simp only [Bool.false_eq_true, if_false, Outcome.bind_ok]
+      by_cases hd : d0 < B t.bits
+      · have := hsd hd
+        subst this
+        simp only [bne_self_eq_false, Bool.false_eq_true, if_false]
+        refine ConvOkP.of_dec _ _ ?_ ?_
+        · simp only [decide_eq_true_iff, repOf, hs, Bool.false_eq_true, if_false, repU]
+          constructor
+          · intro h; subst h; omega
+          · intro h; by_contra hc; have := hD hc; omega
+        · intro h
+          simp only [decide_eq_true_iff] at h
+          subst h
+          exact ⟨hd, by rw [val_unsigned hs]; omega⟩
+      · have hne : (d0 != small) = true := by
+          simp only [bne_iff_ne, ne_eq]; exact fun h => hds (by omega) h.symm
+        rw [if_pos hne]
+        refine ConvOkP.none ?_
+        simp only [repOf, hs, Bool.false_eq_true, if_false, repU]
+        by_cases hc : D = 0
+        · subst hc; omega
+        · have := hD hc; omega
+    · -- signed target
+      have hneg : PInt.isNeg t small = decide (B t.bits ≤ 2 * small) := by simp [PInt.isNeg, hs]
+      have htr : PInt.cast t.bits true w small
+          = if B t.bits ≤ 2 * small then small + (B w - B t.bits) else small := by
+        unfold PInt.cast
+        rw [if_neg (by omega)]
+        by_cases h : B t.bits ≤ 2 * small <;> simp [h]
+      rw [htr, hneg]
+      by_cases hsn : B t.bits ≤ 2 * small
+      · -- truncation is negative: never Ok, and the value is not representable
+        have hnr : ¬ repOf t.signed (B t.bits) (U w x : Int) := by
+          simp only [repOf, hs, if_true, repS]
+          by_cases hc : D = 0
+          · subst hc; omega
+          · have := hD hc; omega
+        simp only [hsn, if_true, decide_true]
+        split
+        · exact ConvOkP.none hnr
+        · exact ConvOkP.none hnr
+      · simp only [hsn, if_false, decide_false, Bool.false_eq_true, Outcome.bind_ok]
+        by_cases hd : d0 < B t.bits
+        · have := hsd hd
+          subst this
+          simp only [bne_self_eq_false, Bool.false_eq_true, if_false]
+          refine ConvOkP.of_dec _ _ ?_ ?_
+          · simp only [decide_eq_true_iff, repOf, hs, if_true, repS]
+            constructor
+            · intro h; subst h; omega
+            · intro h; by_contra hc; have := hD hc; omega
+          · intro h
+            simp only [decide_eq_true_iff] at h
+            subst h
+            refine ⟨hd, ?_⟩
+            rw [val_signed hs, toInt_of_lt (by omega)]; omega
+        · have hne : (d0 != small) = true := by
+            simp only [bne_iff_ne, ne_eq]; exact fun h => hds (by omega) h.symm
+          rw [if_pos hne]
+          refine ConvOkP.none ?_
+          simp only [repOf, hs, if_true, repS]
+          by_cases hc : D = 0
+          · subst hc; omega
+          · have := hD hc; omega
+  · -- the primitive is a whole number of digits
+    rw [if_neg hwk]
+    obtain ⟨c, hc⟩ := hdiv.resolve_left (by omega)
+    obtain ⟨i', h1, _, h3, h4, h5⟩ := asmOrLoop_spec (k := t.bits) hx x.length 0 (by rw [hx.1]; rfl)
+    simp only [List.take_zero, U_nil, Nat.zero_mod] at h1
+    rw [h1, Outcome.bind_ok]
+    dsimp only
+    rw [hc] at h4 h5
+    obtain ⟨hic, hcase⟩ := asm_stop hw h4 (fun j hj => h5 j (by omega) hj)
+    obtain ⟨e1, e2, e3, e4, _, _⟩ := split_at hx h3
+    have hE : B w ^ i' ≤ B t.bits := by rw [hc, B_mul]; exact B_pow_le hic
+    rw [Nat.mod_eq_of_lt (show U w (x.take i') < B t.bits by omega), restAll_zero hx h3]
+    have hEM : i' = n → U w (x.drop i') = 0 := by
+      intro h; rw [h, Nat.sub_self, M_zero] at e3; rw [h]; omega
+    have hEc : i' = c → B w ^ i' = B t.bits := by
+      intro h; rw [hc, B_mul, h]
+    generalize U w (x.take i') = T at *
+    generalize U w (x.drop i') = D at *
+    generalize B w ^ i' = E at *
+    have hD : D ≠ 0 → E ≤ E * D := fun h => Nat.le_mul_of_pos_right _ (by omega)
+    cases hs : t.signed
+    · have hneg : PInt.isNeg t T = false := by simp [PInt.isNeg, hs]
+      rw [hneg]
+      simp only [Bool.false_eq_true, if_false, Outcome.bind_ok]
+      refine ConvOkP.of_dec _ _ ?_ ?_
+      · simp only [decide_eq_true_iff, repOf, hs, Bool.false_eq_true, if_false, repU]
+        constructor
+        · intro h; subst h; omega
+        · intro h
+          rcases hcase with h' | h'
+          · exact hEM h'
+          · have := hEc h'; by_contra hcD; have := hD hcD; omega
+      · intro h
+        simp only [decide_eq_true_iff] at h
+        subst h
+        exact ⟨by omega, by rw [val_unsigned hs]; omega⟩
+    · have hneg : PInt.isNeg t T = decide (B t.bits ≤ 2 * T) := by simp [PInt.isNeg, hs]
+      rw [hneg]
+      by_cases hsn : B t.bits ≤ 2 * T
+      · simp only [hsn, decide_true, if_true]
+        refine ConvOkP.none ?_
+        simp only [repOf, hs, if_true, repS]
+        omega
+      · simp only [hsn, decide_false, Bool.false_eq_true, if_false, Outcome.bind_ok]
+        refine ConvOkP.of_dec _ _ ?_ ?_
+        · simp only [decide_eq_true_iff, repOf, hs, if_true, repS]
+          constructor
+          · intro h; subst h; omega
+          · intro h
+            rcases hcase with h' | h'
+            · exact hEM h'
+            · have := hEc h'; by_contra hcD; have := hD hcD; omega
+        · intro h
+          simp only [decide_eq_true_iff] at h
+          subst h
+          refine ⟨by omega, ?_⟩
+          rw [val_signed hs, toInt_of_lt (by omega)]; omega
+
+theorem mod_of_top {bw bk d : Nat} (hdvd : bk ∣ bw) (h1 : bw - bk ≤ d) (h2 : d < bw) :
+    d % bk = d - (bw - bk) := by
+  obtain ⟨q, rfl⟩ := hdvd
+  have hq : 0 < q := by
+    rcases q with _ | q
+    · simp at h2
+    · omega
+  obtain ⟨q', rfl⟩ : ∃ q', q = q' + 1 := ⟨q - 1, by omega⟩
+  have e : bk * (q' + 1) - bk = bk * q' := by rw [Nat.mul_add]; omega
+  rw [e] at h1 ⊢
+  have : d = bk * q' + (d - bk * q') := by omega
+  rw [Nat.mul_add] at h2
+  conv_lhs => rw [this]
+  rw [Nat.mul_add_mod, Nat.mod_eq_of_lt (by omega)]
+
+/-- C13: `TryFrom<BInt<N>> for iK` (`int_try_from_bint!`), non-negative source -/
+theorem II.tryToPrimSigned_nonneg {w n : Nat} {x : List Nat} (t : PTy) (hw : 1 ≤ w) (hn : 1 ≤ n)
+    (hk : 1 ≤ t.bits) (hs : t.signed = true) (hdiv : t.bits < w ∨ ∃ c, t.bits = c * w)
+    (hx : WF w n x) (hnn : 0 ≤ S w x) : ConvOkP t (II.tryToPrimSigned w x t) (S w x) := by
+  unfold II.tryToPrimSigned
+  dsimp only
+  have hBe : B t.bits = 2 * (B t.bits / 2) := B_even hk
+  have hneg : isNegative w x = false := (isNegative_false_iff hw hn hx).2 hnn
+  rw [S_of_nonneg hx hnn, hneg]
+  simp only [Bool.false_eq_true, if_false]
+  have hisneg : ∀ q, PInt.isNeg t q = decide (B t.bits ≤ 2 * q) := by
+    intro q; simp [PInt.isNeg, hs]
+  by_cases hwk : w > t.bits
+  · rw [if_pos hwk]
+    have hBB := B_lt_B hwk
+    obtain ⟨h1, h2, h3, h4, _, _⟩ := split_at hx (show 1 ≤ n by omega)
+    have hz := restAll_zero hx (show 1 ≤ n by omega)
+    have hlen : 0 < x.length := by rw [hx.1]; omega
+    have ht : U w (x.take 1) = x.getD 0 0 := by
+      rw [take_succ_getD x hlen]; simp
+    rw [idx_getD hlen, Outcome.bind_ok, hz]
+    rw [ht] at h1 h2
+    rw [Nat.pow_one] at h1 h2
+    generalize x.getD 0 0 = d0 at *
+    generalize U w (x.drop 1) = D at *
+    have hD : D ≠ 0 → B w ≤ B w * D := fun h => Nat.le_mul_of_pos_right _ (by omega)
+    have hsm : PInt.cast w false t.bits d0 = d0 % B t.bits := cast_trunc _ _ (by omega)
+    have hmod := Nat.mod_lt d0 (B_pos t.bits)
+    have hmd := Nat.mod_add_div d0 (B t.bits)
+    rw [hsm]
+    generalize hsmall : d0 % B t.bits = small at *
+    have hsd : d0 < B t.bits → small = d0 := fun h => by rw [← hsmall]; exact Nat.mod_eq_of_lt h
+    have hds : B t.bits ≤ d0 → small ≠ d0 := fun h => by omega
+    have htr : PInt.cast t.bits t.signed w small
+        = if B t.bits ≤ 2 * small then small + (B w - B t.bits) else small := by
+      unfold PInt.cast
+      rw [if_neg (by omega), hs]
+      by_cases h : B t.bits ≤ 2 * small <;> simp [h]
+    rw [htr, hisneg]
+    by_cases hsn : B t.bits ≤ 2 * small
+    · have hnr : ¬ repOf t.signed (B t.bits) (U w x : Int) := by
+        simp only [repOf, hs, if_true, repS]
+        by_cases hc : D = 0
+        · subst hc; omega
+        · have := hD hc; omega
+      simp only [hsn, if_true, decide_true]
+      split
+      · exact ConvOkP.none hnr
+      · simp only [Outcome.bind_ok]
+        split
+        · exact ConvOkP.none hnr
+        · simp only [Bool.true_bne, Bool.not_false, if_true]
+          exact ConvOkP.none hnr
+    · simp only [hsn, if_false, decide_false, Outcome.bind_ok]
+      by_cases hd : d0 < B t.bits
+      · have := hsd hd
+        subst this
+        simp only [bne_self_eq_false, Bool.false_eq_true, if_false]
+        by_cases hD0 : D = 0
+        · subst hD0
+          simp only [decide_true, Bool.not_true, Bool.false_eq_true, if_false]
+          refine ConvOkP.some ?_ hd ?_
+          · simp only [repOf, hs, if_true, repS]; omega
+          · rw [val_signed hs, toInt_of_lt (by omega)]; omega
+        · simp only [hD0, decide_false, Bool.not_false, if_true]
+          refine ConvOkP.none ?_
+          simp only [repOf, hs, if_true, repS]
+          have := hD hD0; omega
+      · have hne : (d0 != small) = true := by
+          simp only [bne_iff_ne, ne_eq]; exact fun h => hds (by omega) h.symm
+        rw [if_pos hne]
+        refine ConvOkP.none ?_
+        simp only [repOf, hs, if_true, repS]
+        by_cases hc : D = 0
+        · subst hc; omega
+        · have := hD hc; omega
+  · rw [if_neg hwk]
+    obtain ⟨c, hc⟩ := hdiv.resolve_left (by omega)
+    obtain ⟨i', h1, _, h3, h4, h5⟩ := asmOrLoop_spec (k := t.bits) hx x.length 0 (by rw [hx.1]; rfl)
+    simp only [List.take_zero, U_nil, Nat.zero_mod] at h1
+    rw [h1, Outcome.bind_ok]
+    dsimp only
+    rw [hc] at h4 h5
+    obtain ⟨hic, hcase⟩ := asm_stop hw h4 (fun j hj => h5 j (by omega) hj)
+    obtain ⟨e1, e2, e3, e4, _, _⟩ := split_at hx h3
+    have hE : B w ^ i' ≤ B t.bits := by rw [hc, B_mul]; exact B_pow_le hic
+    rw [Nat.mod_eq_of_lt (show U w (x.take i') < B t.bits by omega), restAll_zero hx h3, hisneg]
+    have hEM : i' = n → U w (x.drop i') = 0 := by
+      intro h; rw [h, Nat.sub_self, M_zero] at e3; rw [h]; omega
+    have hEc : i' = c → B w ^ i' = B t.bits := by
+      intro h; rw [hc, B_mul, h]
+    generalize U w (x.take i') = T at *
+    generalize U w (x.drop i') = D at *
+    generalize B w ^ i' = E at *
+    have hD : D ≠ 0 → E ≤ E * D := fun h => Nat.le_mul_of_pos_right _ (by omega)
+    simp only [Outcome.bind_ok]
+    by_cases hD0 : D = 0
+    · subst hD0
+      simp only [decide_true, Bool.not_true, Bool.false_eq_true, if_false]
+      by_cases hsn : B t.bits ≤ 2 * T
+      · simp only [hsn, decide_true, Bool.true_bne, Bool.not_false, if_true]
+        refine ConvOkP.none ?_
+        simp only [repOf, hs, if_true, repS]; omega
+      · simp only [hsn, decide_false, bne_self_eq_false, Bool.false_eq_true, if_false]
+        refine ConvOkP.some ?_ (by omega) ?_
+        · simp only [repOf, hs, if_true, repS]; omega
+        · rw [val_signed hs, toInt_of_lt (by omega)]; omega
+    · simp only [hD0, decide_false, Bool.not_false, if_true]
+      refine ConvOkP.none ?_
+      simp only [repOf, hs, if_true, repS]
+      rcases hcase with h' | h'
+      · exact absurd (hEM h') hD0
+      · have := hEc h'; have := hD hD0; omega
+
+theorem B_dvd_B {a b : Nat} (h : a ≤ b) : B a ∣ B b := Nat.pow_dvd_pow _ h
+
+/-- C13: `TryFrom<BInt<N>> for iK` (`int_try_from_bint!`), negative source -/
+theorem II.tryToPrimSigned_neg {w n : Nat} {x : List Nat} (t : PTy) (hw : 1 ≤ w) (hn : 1 ≤ n)
+    (hk : 1 ≤ t.bits) (hs : t.signed = true) (hdiv : t.bits < w ∨ ∃ c, t.bits = c * w)
+    (hx : WF w n x) (hlt : S w x < 0) : ConvOkP t (II.tryToPrimSigned w x t) (S w x) := by
+  unfold II.tryToPrimSigned
+  dsimp only
+  have hBe : B t.bits = 2 * (B t.bits / 2) := B_even hk
+  have hneg : isNegative w x = true := (isNegative_iff' hw hn hx).2 hlt
+  have hSx := S_of_neg hx hlt
+  have hR := U_lt hx
+  rw [hneg]
+  simp only [if_true]
+  have hisneg : ∀ q, PInt.isNeg t q = decide (B t.bits ≤ 2 * q) := by
+    intro q; simp [PInt.isNeg, hs]
+  by_cases hwk : w > t.bits
+  · rw [if_pos hwk]
+    have hBB := B_lt_B hwk
+    obtain ⟨h1, h2, h3, h4, _, _⟩ := split_at hx (show 1 ≤ n by omega)
+    have hz := restAll_max hx (show 1 ≤ n by omega)
+    have hlen : 0 < x.length := by rw [hx.1]; omega
+    have ht : U w (x.take 1) = x.getD 0 0 := by
+      rw [take_succ_getD x hlen]; simp
+    rw [idx_getD hlen, Outcome.bind_ok, hz]
+    rw [ht] at h1 h2
+    rw [Nat.pow_one] at h1 h2 h4
+    have hM' := M_pos w (n - 1)
+    generalize x.getD 0 0 = d0 at *
+    generalize U w (x.drop 1) = D at *
+    generalize M w (n - 1) = M' at *
+    have hD1 : D = M' - 1 → B w * D + B w = B w * M' := by
+      intro h; subst h
+      obtain ⟨m, rfl⟩ : ∃ m, M' = m + 1 := ⟨M' - 1, by omega⟩
+      rw [Nat.add_sub_cancel, Nat.mul_add, Nat.mul_one]
+    have hD2 : D ≠ M' - 1 → B w * D + 2 * B w ≤ B w * M' := by
+      intro h
+      have : B w * (D + 2) ≤ B w * M' := Nat.mul_le_mul_left _ (by omega)
+      rw [Nat.mul_add] at this; omega
+    have hsm : PInt.cast w false t.bits d0 = d0 % B t.bits := cast_trunc _ _ (by omega)
+    have hmod := Nat.mod_lt d0 (B_pos t.bits)
+    have hmd := Nat.mod_add_div d0 (B t.bits)
+    have htop : B w - B t.bits ≤ d0 → d0 % B t.bits = d0 - (B w - B t.bits) :=
+      fun h => mod_of_top (B_dvd_B (by omega)) h h2
+    rw [hsm]
+    generalize hsmall : d0 % B t.bits = small at *
+    have htr : PInt.cast t.bits t.signed w small
+        = if B t.bits ≤ 2 * small then small + (B w - B t.bits) else small := by
+      unfold PInt.cast
+      rw [if_neg (by omega), hs]
+      by_cases h : B t.bits ≤ 2 * small <;> simp [h]
+    rw [htr, hisneg, hSx, h4, h1]
+    by_cases hsn : B t.bits ≤ 2 * small
+    · simp only [hsn, if_true, decide_true, bne_self_eq_false, Bool.false_eq_true, if_false]
+      by_cases hd : d0 = small + (B w - B t.bits)
+      · have hne : (d0 != small + (B w - B t.bits)) = false := by simp [hd]
+        rw [hne]
+        simp only [Bool.false_eq_true, if_false, Outcome.bind_ok]
+        by_cases hDm : D = M' - 1
+        · have := hD1 hDm
+          have hdec : decide (D = M' - 1) = true := decide_eq_true hDm
+          simp only [hdec, Bool.not_true, Bool.false_eq_true, if_false]
+          refine ConvOkP.some ?_ hmod ?_
+          · simp only [repOf, hs, if_true, repS]; push_cast; omega
+          · rw [val_signed hs, toInt_of_ge hsn]; push_cast; omega
+        · have := hD2 hDm
+          simp only [hDm, decide_false, Bool.not_false, if_true]
+          refine ConvOkP.none ?_
+          simp only [repOf, hs, if_true, repS]; push_cast; omega
+      · have hne : (d0 != small + (B w - B t.bits)) = true := by simp [hd]
+        rw [hne]
+        simp only [if_true]
+        refine ConvOkP.none ?_
+        simp only [repOf, hs, if_true, repS]; push_cast
+        by_cases hDm : D = M' - 1
+        · have := hD1 hDm
+          intro hc
+          have := htop (by omega)
+          omega
+        · have := hD2 hDm; omega
+    · -- truncation non-negative: never Ok, value below the range
+      have hnr : ¬ repOf t.signed (B t.bits) ((d0 + B w * D : Nat) - (B w * M' : Nat) : Int) := by
+        simp only [repOf, hs, if_true, repS]; push_cast
+        by_cases hDm : D = M' - 1
+        · have := hD1 hDm
+          intro hc
+          have := htop (by omega)
+          omega
+        · have := hD2 hDm; omega
+      simp only [hsn, if_false, decide_false]
+      split
+      · exact ConvOkP.none hnr
+      · simp only [Outcome.bind_ok]
+        split
+        · exact ConvOkP.none hnr
+        · simp only [Bool.false_bne, if_true]
+          exact ConvOkP.none hnr
+  · rw [if_neg hwk]
+    obtain ⟨c, hc⟩ := hdiv.resolve_left (by omega)
+    obtain ⟨i', h1, h3, h4, h5⟩ := asmAndNotLoop_spec (k := t.bits) hx
+    rw [hx.1, h1, Outcome.bind_ok]
+    dsimp only
+    rw [hc] at h4 h5
+    obtain ⟨hic, hcase⟩ := asm_stop hw h4 h5
+    obtain ⟨e1, e2, e3, e4, _, _⟩ := split_at hx h3
+    have hE : B w ^ i' ≤ B t.bits := by rw [hc, B_mul]; exact B_pow_le hic
+    have hT' : U w ((bnot w x).take i') = B w ^ i' - 1 - U w (x.take i') := by
+      have := U_bnot (WF_take i' hx)
+      rw [Nat.min_eq_left h3, M_eq_pow] at this
+      rw [take_bnot, this]
+    rw [hT', Nat.mod_eq_of_lt (show B w ^ i' - 1 - U w (x.take i') < B t.bits by omega),
+      ← hx.1, restAll_max hx h3, hisneg, hSx, e4, e1]
+    have hEM : i' = n → M w (n - i') = 1 := by
+      intro h; rw [h, Nat.sub_self, M_zero]
+    have hEc : i' = c → B w ^ i' = B t.bits := by
+      intro h; rw [hc, B_mul, h]
+    have hM' := M_pos w (n - i')
+    have hEpos : 0 < B w ^ i' := Nat.pow_pos (B_pos w)
+    generalize U w (x.take i') = T at *
+    generalize U w (x.drop i') = D at *
+    generalize B w ^ i' = E at *
+    generalize M w (n - i') = M' at *
+    have hD1 : D = M' - 1 → E * D + E = E * M' := by
+      intro h; subst h
+      obtain ⟨m, rfl⟩ : ∃ m, M' = m + 1 := ⟨M' - 1, by omega⟩
+      rw [Nat.add_sub_cancel, Nat.mul_add, Nat.mul_one]
+    have hD2 : D ≠ M' - 1 → E * D + 2 * E ≤ E * M' := by
+      intro h
+      have : E * (D + 2) ≤ E * M' := Nat.mul_le_mul_left _ (by omega)
+      rw [Nat.mul_add] at this; omega
+    have hout : Prim.not t.bits (E - 1 - T) = B t.bits - E + T := by
+      unfold Prim.not; omega
+    rw [hout]
+    simp only [Outcome.bind_ok]
+    by_cases hDm : D = M' - 1
+    · have := hD1 hDm
+      have hdec : decide (D = M' - 1) = true := decide_eq_true hDm
+      simp only [hdec, Bool.not_true, Bool.false_eq_true, if_false]
+      by_cases hsn : B t.bits ≤ 2 * (B t.bits - E + T)
+      · simp only [hsn, decide_true, bne_self_eq_false, Bool.false_eq_true, if_false]
+        refine ConvOkP.some ?_ (by omega) ?_
+        · simp only [repOf, hs, if_true, repS]; push_cast; omega
+        · rw [val_signed hs, toInt_of_ge hsn]; push_cast; omega
+      · simp only [hsn, decide_false, Bool.false_bne, if_true]
+        refine ConvOkP.none ?_
+        simp only [repOf, hs, if_true, repS]; push_cast; omega
+    · have := hD2 hDm
+      simp only [hDm, decide_false, Bool.not_false, if_true]
+      refine ConvOkP.none ?_
+      simp only [repOf, hs, if_true, repS]; push_cast
+      rcases hcase with h' | h'
+      · have := hEM h'; omega
+      · have := hEc h'; omega
+
 end Bnum
